@@ -242,13 +242,15 @@ class Model(object):
         beg = idx + off // s            # a misaligned offset addresses the element containing it
         endactual = idx + n
         end = beg + len(vals)
-        if end > endactual or not (0 <= beg < cnt) or n > cnt or not (beg < end) or end > cnt:
-            return err(RANGE_ERR)
-        if self.strict_extent and endactual > cnt:
-            return err(RANGE_ERR)
-        if not all(representable(tname, v) for v in vals):
-            # C05: a write the tag's type cannot represent must not be acknowledged
+        range_bad = (end > endactual or not (0 <= beg < cnt) or n > cnt or not (beg < end) or end > cnt
+                     or (self.strict_extent and endactual > cnt))
+        value_bad = not all(representable(tname, v) for v in vals)
+        if value_bad:
+            # C05: a write the tag's type cannot represent must not be acknowledged (0x2107, or
+            # 0x2105 when the range is wrong as well: the statement does not rank the two)
             return Expected(status=0xFF, ext=(0x2107,), any_error=True)
+        if range_bad:
+            return err(RANGE_ERR)
         arr[beg:end] = [convert(tname, v) for v in vals]
         return Expected(status=0x00, wrote=(sid, beg, end))
 
